@@ -402,13 +402,16 @@ def build_model(rng, kind):
 
   import models
 
-  nact = int(rng.integers(0, 3))
-  o = models.Opts(nbody=(1, 4), plane=True, contacts=True, actuators=nact, mocap=0.5, equality=int(rng.integers(0, 2)),
-                  sites=0.3, joint_types=("hinge", "slide", "ball", "free"), spread=0.5)  # fmt: skip
-  xml, _ = models.random_model(rng, o)
+  if "manyeq" in kind:  # few dofs (nq = 2), several equalities: neq > nq
+    xml = '<mujoco><option gravity="0 0 -9.81" /><worldbody></worldbody></mujoco>'
+  else:
+    nact = int(rng.integers(0, 3))
+    o = models.Opts(nbody=(1, 4), plane=True, contacts=True, actuators=nact, mocap=0.5, equality=int(rng.integers(0, 2)),
+                    sites=0.3, joint_types=("hinge", "slide", "ball", "free"), spread=0.5)  # fmt: skip
+    xml, _ = models.random_model(rng, o)
   extra_wb = '<body name="xb" pos="3 0 1"><joint name="xj" type="slide" axis="0 0 1"/><geom size=".05" contype="0" conaffinity="0"/></body>'
   extra_wb += '<body name="xb2" pos="3 1 1"><joint name="xj2" type="hinge" axis="0 1 0"/><geom size=".05" contype="0" conaffinity="0"/></body>'
-  nball = int(rng.integers(1, 3))
+  nball = 0 if "manyeq" in kind else int(rng.integers(1, 3))
   for b in range(nball):  # spheres resting on / sunk into the plane: contacts from the first step on
     extra_wb += f'<body pos="{-2 - b} {rng.uniform(-.3, .3):.3f} {rng.uniform(0.07, 0.1):.3f}"><freejoint/><geom type="sphere" size="0.1"/></body>'
   if "mocapchild" in kind:
@@ -425,7 +428,25 @@ def build_model(rng, kind):
     sections += f"<actuator>{acts}</actuator>"
   if "eqc" in kind:
     sections += '<equality><connect body1="xb" body2="xb2" anchor="0 .5 0"/></equality>'
-  sections += '<sensor><jointpos joint="xj"/><jointvel joint="xj2"/></sensor>'
+  if "manyeq" in kind:
+    tmpl = ['<connect body1="xb" anchor="0 0 {a:.2f}"{act}/>', '<connect body1="xb2" anchor="0 {a:.2f} .1"{act}/>', '<weld body1="xb" body2="xb2"{act}/>',
+            '<joint joint1="xj" joint2="xj2" polycoef="0 {a:.2f} 0 0 0"{act}/>', '<connect body1="xb" body2="xb2" anchor="0 .5 {a:.2f}"{act}/>']  # fmt: skip
+    neq = int(rng.integers(3, 7))
+    sections += "<equality>" + "".join(tmpl[int(rng.integers(len(tmpl)))].format(a=rng.uniform(-0.3, 0.3), act=(' active="false"' if rng.random() < 0.5 else "")) for _ in range(neq)) + "</equality>"
+  if "interval" in kind:
+    # delay / interval buffers whose period, phase and delay are NOT whole numbers of timesteps, all interpolation orders
+    h = float(rng.choice([0.004, 0.003, 0.002]))
+    sections += f'<option timestep="{h}"/>'
+    off = lambda: float(rng.choice([0.05, 0.013, 0.0071, 0.0093, 0.031])) * float(rng.choice([1, 1, 2]))
+    itp = lambda: str(rng.choice(["zoh", "linear", "cubic"]))
+    per = off()
+    sens = f'<jointpos joint="xj" interval="{per:.4g} {-per * rng.uniform(0.1, 0.9) if rng.random() < 0.5 else 0:.4g}" delay="{off():.4g}" nsample="{int(rng.integers(2, 6))}" interp="{itp()}"/>'
+    sens += f'<jointvel joint="xj2" interval="{off():.4g}" nsample="{int(rng.integers(1, 4))}"/>'
+    sens += f'<jointpos joint="xj2" delay="{off():.4g}" nsample="{int(rng.integers(2, 6))}" interp="{itp()}"/>'
+    sections += f'<actuator><motor joint="xj2" delay="{off():.4g}" nsample="{int(rng.integers(2, 6))}" interp="{itp()}"/></actuator>'
+    sections += f"<sensor>{sens}</sensor>"
+  else:
+    sections += '<sensor><jointpos joint="xj"/><jointvel joint="xj2"/></sensor>'
   if "sleep" in kind:
     xml = xml.replace("<option ", '<option><flag sleep="enable"/></option><option ', 1)
   xml = xml.replace("</worldbody>", extra_wb + "</worldbody>", 1).replace("</mujoco>", sections + "</mujoco>", 1)
@@ -448,10 +469,11 @@ def build_model(rng, kind):
   return xml
 
 
-KINDS = ["na>nu key", "na<=nu key eqc", "na>nu delay", "delay key", "na<=nu mocapchild", "na>nu sleep key", "plain eqc", "na<=nu sleep"]
+KINDS = ["na>nu key", "na<=nu key eqc", "na>nu delay", "delay key", "na<=nu mocapchild", "na>nu sleep key", "plain eqc", "na<=nu sleep",
+         "manyeq na<=nu key", "interval na>nu key", "manyeq interval"]
 
 
-def put_random_state(rng, mjm, d, scale=1.0):
+def put_random_state(rng, mjm, d, scale=1.0, flip_eq=False):
   """Overwrite the integration state of every world of a real Data with random float32 values."""
   import warp as wp
 
@@ -478,7 +500,10 @@ def put_random_state(rng, mjm, d, scale=1.0):
   if mjm.nuserdata:
     setf("userdata", (mjm.nuserdata,))
   if mjm.neq:
-    wp.copy(d.eq_active, wp.array(rng.random((nw, mjm.neq)) < 0.5, dtype=bool))
+    ea = rng.random((nw, mjm.neq)) < 0.5
+    if flip_eq:  # world 0: every equality toggled with respect to eq_active0
+      ea[0] = ~mjm.eq_active0.astype(bool)
+    wp.copy(d.eq_active, wp.array(ea, dtype=bool))
   wp.copy(d.time, wp.array(rng.uniform(0, 5, nw).astype(np.float32), dtype=float))
 
 
@@ -607,7 +632,7 @@ class Scenario:
     return f
 
   def describe(self):
-    return {"index": getattr(self, "index", None), "nops": getattr(self, "nops", None), "seed": self.seed, "kind": self.kind, "nworld": self.nw, "batched_qpos0": self.batched, "xml": self.xml}
+    return {"index": getattr(self, "index", None), "nops": getattr(self, "nops", None), "params": [self.kind, self.nw, self.batched], "seed": self.seed, "kind": self.kind, "nworld": self.nw, "batched_qpos0": self.batched, "xml": self.xml}
 
 
 def scramble_and_step(sc, ds, nsteps, scale=1.0):
@@ -616,7 +641,7 @@ def scramble_and_step(sc, ds, nsteps, scale=1.0):
 
   sd = int(sc.rng.integers(1 << 30))
   for d in ds:
-    put_random_state(np.random.default_rng(sd), sc.mjm, d, scale)
+    put_random_state(np.random.default_rng(sd), sc.mjm, d, scale, flip_eq="manyeq" in sc.kind)
   for _ in range(nsteps):
     set_ctrl(sc.rng, sc.mjm, ds)
     for d in ds:
@@ -670,13 +695,17 @@ def oracle_reset(sc, mask, wmask, ksteps, found, res):
   sel = [True] * nw if mask is None else mask
   rep = {"scenario": sc.describe(), "log": list(sc.log), "mask": mask, "int_mask": bool(wmask is not None and wmask.dtype != wp.bool)}
   modelled = set(WORLD_FIELDS) | set(FIELD_PATH.values())
+  state_causes = {}
   stale = set()
   for w in range(nw):
     if sel[w]:
       for f in diff_world(post_rows, fresh_rows, w):
         if f in modelled:
           key = classify_selected(sc, f, w, post_rows, fresh_rows)
-          found.setdefault(key, (f"after reset_data selected world {w} field {f} = {post_rows[f][w].reshape(-1)[:8].tolist()} (bits) but a fresh Data has {fresh_rows[f][w].reshape(-1)[:8].tolist()}", dict(rep, world=w, field=f)))
+          pa, fa = post_rows[f][w].reshape(-1), fresh_rows[f][w].reshape(-1)
+          k0 = int(np.flatnonzero(pa != fa)[0]) if pa.shape == fa.shape and (pa != fa).any() else 0
+          found.setdefault(key, (f"after reset_data selected world {w} field {f} differs from a fresh Data from flat index {k0} on: reset {pa[k0 : k0 + 6].tolist()} fresh {fa[k0 : k0 + 6].tolist()} (int values / float32 bit patterns)", dict(rep, world=w, field=f, index=k0)))
+          state_causes.setdefault(w, []).append(key)
         else:
           stale.add(f)
       if post_con.get(w):
@@ -733,11 +762,7 @@ def oracle_reset(sc, mask, wmask, ksteps, found, res):
       bad = [x for x in TRAJ_FIELDS if not np.array_equal(a[x][w], ref[x][w])]
       if bad and sel[w]:
         # attribute the divergence to the fields that already differed right after the reset
-        causes = []
-        if sc.info["nhistory"] and not np.array_equal(post_rows["history"][w], fresh_rows["history"][w]):
-          causes.append("C13:reset_data:history")
-        if not np.array_equal(post_rows["act"][w], fresh_rows["act"][w]):
-          causes.append("C13:reset_data:act-na>nu" if sc.info["na"] > sc.info["nu"] else "C13:reset_data:field-act")
+        causes = list(dict.fromkeys(state_causes.get(w, [])))
         if not causes and variant_matches("cvel", w):
           stale_nan = bool(np.isnan(pre_rows["cvel"][w].astype(np.int32).view(np.float32)).any())
           key = "C13:reset_data:stale-cvel-cdof_dot"
@@ -776,11 +801,37 @@ def scenario_params(s):
   return KINDS[s % len(KINDS)], 1 + (s // 2) % 3, (s % 5 == 3)
 
 
-def run_one_scenario(res, s, seed, nops, found, tag="mm"):
+def check_tables_consistent(sc, found):
+  """tables_consistent of Proof/Reset.v on a generated model: what the reset kernels read from the device
+  Model equals what make_data read from the host model (history0 = the history of a fresh Data, ...)."""
+  if sc.batched:
+    return True
+  info = sc.info
+  fs = snapshot(sc.d)["worlds"][0]  # sc.d is still the fresh make_data here
+  bad = []
+  if info["history0"] != info["h_history0"] or info["history0"] != fs["history"]:
+    bad.append("history0")
+  if [info["h_qpos0"]] != info["qpos0"]:
+    bad.append("qpos0")
+  if info["eq_active0"] != info["h_eq_active0"] or info["eq_active0"] != fs["eq_active"]:
+    bad.append("eq_active0")
+  if [info["h_body_pos"]] != info["body_pos"] or [info["h_body_quat"]] != info["body_quat"]:
+    bad.append("body_pos/quat")
+  for b in bad:
+    what = f"put_model's Model.{b} (read by reset_data) differs from what make_data puts into a fresh Data"
+    if b == "history0":
+      k = next((i for i, (x, y) in enumerate(zip(info["history0"], fs["history"])) if x != y), None)
+      what += f": first difference at history[{k}]: Model.history0 = {np.array([info['history0'][k]], dtype=np.int32).view(np.float32)[0] if k is not None else '?'}, fresh Data = {np.array([fs['history'][k]], dtype=np.int32).view(np.float32)[0] if k is not None else '?'} (nhistory={info['nhistory']})"
+    found.setdefault(f"C13:put_model:{b}-differs-from-make_data", (what, {"scenario": sc.describe(), "log": [], "table": b}))
+  return not bad
+
+
+def run_one_scenario(res, s, seed, nops, found, tag="mm", params=None):
   """All operations of scenario number s on the real code: oracle + correspondence case lines."""
-  kind, nw, batched = scenario_params(s)
+  kind, nw, batched = params or scenario_params(s)
   sc = Scenario(seed, kind, nw, batched_qpos0=batched)
   sc.index, sc.nops = s, nops
+  TABLES_OK.append(check_tables_consistent(sc, found))
   sc.twin = sc.mk()
   lines, defs, meta = [], [], []
   defs.append(f"Definition {tag}{s} : MModel := {mmodel_term(sc.info)}.")
@@ -832,7 +883,8 @@ def diverge(sc, ds, worlds):
   sc.log.append(("diverge", list(worlds)))
 
 
-REGRESSION_SCENARIOS = [(64, 1364, 4)]
+REGRESSION_SCENARIOS = [(64, 1364, 4, ("na>nu key", 3, False))]
+TABLES_OK = []
 
 
 def run_scenarios(res, nscen, quick, found):
@@ -879,11 +931,13 @@ def run(res):
   lines, defs, meta = run_scenarios(res, 12 if quick else 48, quick, found)
   # fixed regression scenarios (independent of VERIF_SEED): 64/1364 is the thorough-tier case in which NaN rows of
   # d.efc.J survived reset_data (C13:reset_data:stale-nan-efc-J-rows, repaired in /repo 185e5dd)
-  for rs, rseed, rnops in REGRESSION_SCENARIOS:
-    l, d_, m_ = run_one_scenario(res, rs, rseed, rnops, found, tag="rg")
+  for rs, rseed, rnops, rparams in REGRESSION_SCENARIOS:
+    l, d_, m_ = run_one_scenario(res, rs, rseed, rnops, found, tag="rg", params=rparams)
     lines += l
     defs += d_
     meta += m_
+  res.obligation("tables_consistent (hypothesis of C13_reset_eq_fresh) holds on every generated model: Model.history0 / qpos0 / eq_active0 / body_pos / body_quat read by reset_data equal what make_data puts into a fresh Data",
+                 all(TABLES_OK), f"{sum(1 for x in TABLES_OK if not x)} of {len(TABLES_OK)} models violate it")
   verdicts = tvalid.run_cases("C13", ["Model.Reset"], lines, chunk=12, extra_defs="Local Open Scope Z_scope.\n" + "\n".join(defs) + "\n")
   bad = [m for m, v in zip(meta, verdicts) if v != 0]
   res.count(len(lines))
@@ -1184,7 +1238,7 @@ def replay(res, path):
     print(" contacts after: ", {k: len(v) for k, v in contact_multiset(d, post).items()}, "nacon", post["nacon"])
     return 0
   sc = r["scenario"]
-  run_one_scenario(res, sc["index"], sc["seed"], sc["nops"], found)
+  run_one_scenario(res, sc["index"], sc["seed"], sc["nops"], found, params=tuple(sc["params"]) if sc.get("params") else None)
   for k, (what, _) in sorted(found.items()):
     print(("* " if k == stored.get("key") else "  ") + k + ": " + what[:300])
   return 0 if stored.get("key") in found else 1
